@@ -6,4 +6,4 @@ import (
 )
 
 func pathExhaustive(run *ev.Run, prop string, mon func(*wh.Step)) {}
-func c03StorageFailures(run *ev.Run) { runFaults(run, "C03", "quick", true) }
+func c03StorageFailures(run *ev.Run)                               { runFaults(run, "C03", "quick", true) }
